@@ -31,7 +31,8 @@ def cases(draw, max_n=3000, cv=False):
     n = draw(st.one_of(st.integers(3, 12), st.integers(3, 200), st.integers(3, 400 if cv else max_n)))
     mode = "cv" if cv else draw(st.sampled_from(["rule", "rule", "user", "user", "user_wide"]))
     return {"seed": draw(st.integers(0, 2**31)), "family": fam, "n": n,
-            "loc_units": draw(st.sampled_from([0.0, 0.0, 10.0, -10.0, 1e3, -1e3, 1e6, -1e6])),
+            "loc_units": draw(st.sampled_from([0.0, 0.0, 10.0, -10.0, 100.0, 1e3, -1e3, 1e6, -1e6])),
+            "count_unit": draw(st.sampled_from([1, 1, 1, 2500])), "cv_subsample": draw(st.sampled_from([False, False, True])),          # (whole-number samples: the size of one count)
             "log_scale": draw(st.sampled_from([0.0, 0.0, draw(st.floats(-6, 6))])),
             "bw_mode": mode, "bw_log_factor": draw(st.floats(np.log10(0.02), np.log10(20))),
             "n_eval": draw(st.integers(1, 40)), "a_pow": draw(st.integers(-20, 20)),
@@ -50,7 +51,7 @@ def make_sample(case):
     elif fam == "uniform":
         z = g.uniform(-1.7, 1.7, n)
     elif fam == "counts":
-        z = np.round(g.normal(size=n) * 3)
+        z = np.round(g.normal(size=n) * 3) * case.get("count_unit", 1)
     else:
         z = np.round(g.normal(size=n) * 2) / 2
     if np.unique(z).size < 2:
@@ -66,6 +67,9 @@ def bandwidth_kwargs(case, sample):
     if case["bw_mode"] == "user_wide":  # wider than the whole data range
         return {"bandwidth": float(np.ptp(sample) * 10 ** (0.75 * (case["bw_log_factor"] + 1.7)))}
     if case["bw_mode"] == "cv":
+        if case.get("cv_subsample") and sample.size >= 8:
+            # more data than the documented cap on the number of points used in the cross-validation: a sub-set is used
+            return {"cross_validation": True, "max_cv_samples": int(sample.size // 2)}
         return {"cross_validation": True}
     return {}
 
@@ -189,10 +193,27 @@ def body_faithful(case, ctx):
         ctx.event("integer-eval-points")
     # a whole-number sample held in an integer array / list of ints is the same sample
     if case["family"] == "counts" and np.all(sample == np.round(sample)):
-        for name, alt in (("int64 array", sample.astype(np.int64)), ("int32 array", sample.astype(np.int32)), ("list of ints", [int(v) for v in sample])):
+        alts = [("list of ints", [int(v) for v in sample])]
+        for dt in ("int64", "int32", "int16", "int8", "uint8", "uint16", "uint32"):
+            with np.errstate(all="ignore"):
+                a_ = sample.astype(dt)
+            if np.array_equal(a_.astype(float), sample):          # (only types that hold exactly these numbers)
+                alts.append((dt + " array", a_))
+        for name, alt in alts:
             kde_i = build(alt, kw)
             with np.errstate(all="ignore"):
                 pi_, ci_ = np.asarray(kde_i(x.copy()), dtype=float), np.asarray(kde_i.cdf(x.copy()), dtype=float)
+                # ... and evaluated at whole-number points held in the same type
+                if isinstance(alt, np.ndarray) and xi.size:
+                    xq = xi.astype(alt.dtype)
+                    if np.array_equal(xq.astype(float), xi):
+                        pq, cq = np.atleast_1d(np.asarray(kde_i(xq), dtype=float)), np.atleast_1d(np.asarray(kde_i.cdf(xq), dtype=float))
+                        pf, cf = np.atleast_1d(np.asarray(kde(xi.copy()), dtype=float)), np.atleast_1d(np.asarray(kde.cdf(xi.copy()), dtype=float))
+                        if pq.shape != pf.shape or np.any(np.abs(pq - pf) > 1e-12 * unit + 1e-9 * pf) or np.any(np.abs(cq - cf) > 1e-9):
+                            k = int(np.argmax(np.abs(pq - pf))) if pq.shape == pf.shape else 0
+                            raise Violation(f"int-sample:{tag}", f"n={sample.size}: sample and evaluation points both held as {name}: pdf({xi[k]!r}) = {pq.ravel()[k]!r}, "
+                                                                 f"cdf = {cq.ravel()[k]!r}; from float64 arrays of the same numbers {pf[k]!r}, {cf[k]!r}")
+                        ctx.event("integer sample and points: " + str(alt.dtype))
             if abs(float(kde_i.h) - h) > 1e-12 * h or np.any(np.abs(pi_ - p) > 1e-12 * unit + 1e-9 * p) or np.any(np.abs(ci_ - c) > 1e-9):
                 k = int(np.argmax(np.abs(pi_ - p)))
                 raise Violation(f"int-sample:{tag}", f"n={sample.size}: the estimate built from the sample as {name} (h={float(kde_i.h)!r}, pdf({x[k]!r})={pi_[k]!r}) differs from "
